@@ -14,13 +14,13 @@ structure Ghost where
 
 def Ghost.init : Ghost := ⟨[], fun _ => 0⟩
 
-def gstep (g : Ghost) (op : Op) : Ghost :=
-  match op.newRow with
+def gstep (g : Ghost) (s : State) (op : Op) : Ghost :=
+  match okRow s op with
   | some row => ⟨row.off :: g.used, fun o => if o = row.off then row.size else g.sz o⟩
   | none => g
 
-/-- the new record's offset is new -/
-def OpFresh (g : Ghost) (op : Op) : Prop := ∀ row, op.newRow = some row → row.off ∉ g.used
+/-- the offset of the record a successful write adds is new -/
+def OpFresh (g : Ghost) (s : State) (op : Op) : Prop := ∀ row, okRow s op = some row → row.off ∉ g.used
 
 def RowsIn (g : Ghost) (rows : List Row) : Prop := ∀ r ∈ rows, r.off ∈ g.used ∧ r.size = g.sz r.off
 
@@ -32,10 +32,10 @@ theorem RowsIn.append {g : Ghost} {a b : List Row} (ha : RowsIn g a) (hb : RowsI
 theorem RowsIn.sub {g : Ghost} {a b : List Row} (hb : RowsIn g b) (h : ∀ r ∈ a, r ∈ b) : RowsIn g a :=
   fun r hr => hb r (h r hr)
 
-theorem RowsIn.step {g : Ghost} {rows : List Row} (h : RowsIn g rows) (op : Op) (hf : OpFresh g op) :
-    RowsIn (gstep g op) rows := by
+theorem RowsIn.step {g : Ghost} {rows : List Row} (h : RowsIn g rows) (s : State) (op : Op)
+    (hf : OpFresh g s op) : RowsIn (gstep g s op) rows := by
   unfold gstep
-  cases hn : op.newRow with
+  cases hn : okRow s op with
   | none => exact h
   | some row =>
     intro r hr
@@ -43,7 +43,8 @@ theorem RowsIn.step {g : Ghost} {rows : List Row} (h : RowsIn g rows) (op : Op) 
     have hne : r.off ≠ row.off := fun e => hf row hn (e ▸ h1)
     exact ⟨List.mem_cons_of_mem _ h1, by simp [hne, h2]⟩
 
-theorem RowsIn.new (g : Ghost) (op : Op) (row : Row) (h : op.newRow = some row) : RowsIn (gstep g op) [row] := by
+theorem RowsIn.new (g : Ghost) (s : State) (op : Op) (row : Row) (h : okRow s op = some row) :
+    RowsIn (gstep g s op) [row] := by
   intro r hr
   rw [List.mem_singleton.mp hr]
   simp [gstep, h]
